@@ -176,7 +176,7 @@ def t_cprint(rng, n):
         odd = k % 4 == 0
         kind = k % 10
         if kind < 6:
-            e = gen_shaped(rng) if (k // 10) % 2 == 0 and not odd else gen_expr(rng, rng.choice([0, 1, 2, 3, 4]), odd)
+            e = gen_shaped(rng) if (k // 10) % 3 != 0 and not odd else gen_expr(rng, rng.choice([0, 1, 2, 3, 4]), odd)
             text = ir_to_c_expression(e)
             t = dump(e, "expr")
             add(f"String.eqb (ir_to_c_expression sf {t}) {cstr(text)}", f"ir_to_c_expression: {text}")
